@@ -57,6 +57,7 @@ OPS = [
 ]
 
 
+OPS_EXTRA = True
 SIBLINGS = [('copyable', 'cloneable'), ('cloneable', 'defaultable'), ('size', 'alignment'), ('prologue', 'epilogue'), ('target_size', 'size'),
             ('singleton', 'align'), ('base_name', 'original_name'), ('size', 'region_size'), ('last_address', 'size'), ('visibility', 'Visibility::Private'),
             ('doc', 'None'), ('idx', 'index'), ('associated_functions', 'vftable_functions'), ('base_vfunc', 'derived_vfunc'), ('scope_types', 'scope_modules'),
@@ -116,6 +117,24 @@ def mutants_of(rel):
                 if 'fn ' in ls and a_ == r'\bpub ' and 'quote' not in ls and '#' not in ls:
                     continue
                 out.append((rel, i, l, l[:m.start()] + b_ + l[m.end():], 'template: %s -> %s' % (m.group(0).strip(), b_.strip() or '(dropped)')))
+        # negated condition
+        m = re.match(r'^(\s*(?:\} else )?if )(?!let )(.+)( \{)$', l)
+        if m and 'if let' not in l and OPS_EXTRA:
+            out.append((rel, i, l, m.group(1) + '!(' + m.group(2) + ')' + m.group(3), 'condition negated'))
+        # a whole adapter line of an iterator chain dropped
+        if OPS_EXTRA and re.match(r'^\s*\.(filter|rev|skip|take|chain|filter_map|take_while|skip_while|enumerate|copied|cloned)\(.*\)$', l):
+            out.append((rel, i, l, '', 'adapter line dropped: ' + st[:30]))
+        # the first two arguments of a call swapped (single-line call with simple arguments)
+        if OPS_EXTRA:
+            for m in re.finditer(r'\b([a-z_][\w:]*)\(([\w&\*\.]+), ([\w&\*\.]+)([,)])', ls):
+                if m.group(2) != m.group(3):
+                    out.append((rel, i, l, l[:m.start(2)] + m.group(3) + ', ' + m.group(2) + l[m.end(3):], 'arguments swapped in %s(..)' % m.group(1)))
+        # the bodies of two consecutive single-line match arms swapped
+        if OPS_EXTRA and i + 1 < len(src):
+            m1 = re.match(r'^(\s*)(\S.*?) => (.+),$', l)
+            m2 = re.match(r'^(\s*)(\S.*?) => (.+),$', src[i + 1])
+            if m1 and m2 and m1.group(1) == m2.group(1) and m1.group(3) != m2.group(3) and '{' not in m1.group(3) and '{' not in m2.group(3):
+                out.append((rel, i, l, '%s%s => %s,' % (m1.group(1), m1.group(2), m2.group(3)), 'match arm takes the body of the next arm'))
         # a sibling identifier used instead (same type, different meaning)
         for a_, b_ in SIBLINGS:
             for x_, y_ in ((a_, b_), (b_, a_)):
